@@ -257,6 +257,22 @@ class C20(Check):
         us.append(hessian_unit(("R",), 2))
         if tier != "quick":
             us += [jtj_unit(("R", "S", "J"), ("gamma", "beta"), 3, True), hessian_unit(("R", "S", "J"), 3)]
+            # every observed-state selection x target order x weight form, plain and full_output
+            from .c06 import SELECTIONS, TARGETS
+            seen = {u.name for u in us}
+            k = 0
+            for sel in SELECTIONS:
+                for tp in TARGETS:
+                    for full in (False, True):
+                        w = [False, True, "per_state", "scalar"][k % 4]
+                        k += 1
+                        u = jtj_unit(tuple(sel), tuple(tp) if tp is not None else None, 2 if k % 3 else 3, w, full=full)
+                        if u.name not in seen:
+                            seen.add(u.name)
+                            us.append(u)
+            for sel in (("S",), ("J",), ("S", "R"), ("R", "J")):
+                us.append(hessian_unit(sel, 2))
+            us.append(jtj_unit(("S", "R"), ("gamma",), 3, True, ts_sel=("R", "S"), pre_iv=True))
         return us
 
 
